@@ -183,6 +183,39 @@ class Pool:
             s.close()
 
 
+FLOODS = ("oack-then-data", "data1-then-oack", "wrq-then-ack", "oack-then-requests", "oack-then-mixed")
+
+
+def flood(srv, scenario, count, rng):
+    """one endpoint starts a transfer and then sends a long uninterrupted run of well-formed datagrams that are no answer"""
+    s = N._sock(timeout=1.0)
+    tr = N.Transfer()
+    try:
+        if scenario == "wrq-then-ack":
+            s.sendto(N.enc_req(N.WRQ, f"flood{rng.randint(0, 1 << 30)}.bin"), srv.addr)
+        elif scenario == "data1-then-oack":
+            s.sendto(N.enc_req(N.RRQ, "victim.bin"), srv.addr)
+        else:
+            s.sendto(N.enc_req(N.RRQ, "victim.bin", options=[("blksize", 600)]), srv.addr)
+        k, f, src = N.recv(s, tr)
+        peer = src if k in ("OACK", "DATA", "ACK") else srv.addr
+        kinds = {"oack-then-data": [N.enc_data(1, b"tiny")], "data1-then-oack": [N.enc_oack([("blksize", "600")])], "wrq-then-ack": [N.enc_ack(7)],
+                 "oack-then-requests": [N.enc_req(N.RRQ, "victim.bin", options=[("blksize", 600)])],
+                 "oack-then-mixed": [N.enc_data(2, b"abcd"), N.enc_oack([("tsize", "1")]), N.enc_data(0, b"")]}[scenario]
+        for i in range(count):
+            s.sendto(kinds[i % len(kinds)], peer)
+            if peer != srv.addr and i % 3 == 0:
+                s.sendto(kinds[i % len(kinds)], srv.addr)     # the listening port gets its share in multi-port mode too
+            if i % 100 == 99:
+                time.sleep(0.002)
+        time.sleep(0.05)
+        s.sendto(N.enc_error(0, b"stop"), peer)
+    except OSError:
+        pass
+    finally:
+        s.close()
+
+
 def one_run(tftpd, flavor, single, rw, dgrams, sb, rng_seed):
     ro = rw == "read-only"
     ow = rw == "overwrite"
@@ -266,6 +299,30 @@ def one_run(tftpd, flavor, single, rw, dgrams, sb, rng_seed):
                               "culprit_label": culprit[1] if culprit else None, "culprit_hex": culprit[2][:120].hex() if culprit else None, "batch_labels": [l for l, _ in batch],
                               "culprit_alone_reproduces": single_repro, "batch_hex": [d[:80].hex() for _, d in batch] if not culprit else None}
             return res
+        # long uninterrupted runs from the endpoint of a live transfer
+        count = 12000
+        for scenario in FLOODS:
+            if scenario == "wrq-then-ack" and ro:
+                continue
+            flood(srv, scenario, count, rng)
+            res["sent"] += count
+            res["labels"]["flood"] = res["labels"].get("flood", 0) + count
+            ok, why = N.probe(srv, "probe.bin", content)
+            res["probes"] += 1
+            if ok:
+                continue
+            status = srv.exit_status()
+            log = srv.log_tail(600)
+            srv.stop()
+            srv5 = fresh()
+            try:
+                flood(srv5, scenario, count, rng)
+                ok5, why5 = N.probe(srv5, "probe.bin", content)
+            finally:
+                srv5.stop()
+            res["failure"] = {"kind": "unreproduced" if ok5 else "violation", "why": why, "exit_status": status, "log_tail": log, "batch_index": -1, "history_replay_reproduces": None,
+                              "culprit_label": f"flood:{scenario}x{count}", "culprit_hex": "", "batch_labels": [], "culprit_alone_reproduces": not ok5, "batch_hex": None, "flood": {"scenario": scenario, "count": count}}
+            return res
         res["replies"] = dict(pool.replies)
         res["sources"] = pool.sources
         return res
@@ -313,7 +370,7 @@ def run(tier):
         else:
             v.note_inconclusive(f"{r['cfg']}: {f['why']}")
     cov = {"evaluations": total, "distinct_nontrivial": len({(r['cfg'], l) for r in results for l in r['labels']}) + probes,
-           "rule": "hostile datagrams (random bytes 0..1500 and up to 65507, opcode prefixes, truncations / NUL removal / byte mutations / splices of valid packets of all six kinds, valid requests with option values at 0,1,7,8,65464,65465,2^16,2^31,2^32,2^36,2^40,2^63,2^64-1,2^64,-1,+5,007,1e3,'',abc in every case spelling, alone and combined) are sent from 8 source sockets to one long-lived server per (build, port mode, read-only) in a seeded order; after every 64 datagrams a liveness probe (canonical RRQ must return the exact 700-byte file, from the listening port in single-port mode) and the process exit status are checked; a failing batch is bisected on fresh servers. Transfers started by hostile requests are cancelled with ERROR. distinct_nontrivial = probes answered + distinct (configuration, datagram class) pairs.",
+           "rule": "hostile datagrams (random bytes 0..1500 and up to 65507, opcode prefixes, truncations / NUL removal / byte mutations / splices of valid packets of all six kinds, valid requests with option values at 0,1,7,8,65464,65465,2^16,2^31,2^32,2^36,2^40,2^63,2^64-1,2^64,-1,+5,007,1e3,'',abc in every case spelling, alone and combined) are sent from 8 source sockets to one long-lived server per (build, port mode, read-only) in a seeded order; after every 64 datagrams a liveness probe (canonical RRQ must return the exact 700-byte file, from the listening port in single-port mode) and the process exit status are checked; a failing batch is bisected on fresh servers. Transfers started by hostile requests are cancelled with ERROR. Finally the endpoint of a live transfer sends 12000 well-formed datagrams that are no answer (DATA after the OACK, OACK after DATA 1, ACK 7 after a WRQ, repeated requests, a mix) without a pause, then a probe. distinct_nontrivial = probes answered + distinct (configuration, datagram class) pairs.",
            "samples": [{"config": r["cfg"], "datagrams": r["sent"], "probes_passed": r["probes"], "classes": r["labels"]} for r in results[:3]],
            "exhaustive": False, "datagram_classes": labels, "replies_seen": replies, "probes": probes, "servers": len(results), "source_endpoints": sum(r.get("sources", 0) for r in results)}
     return v.finish(cov, ["thread/descriptor exhaustion by thousands of simultaneous accepted transfers is outside the property (workers are cancelled)", "server-internal thread schedules are sampled, not controlled"])
@@ -329,6 +386,14 @@ def replay(rec):
     write(os.path.join(sb["srv"], "probe.bin"), content)
     srv = N.Server(ctx.bins[fl]["tftpd"], sb["srv"], single=(mode == "single"), read_only=(rw == "read-only"), overwrite=(rw == "overwrite"), logdir=sb["logs"]).start()
     try:
+        if r.get("flood"):
+            flood(srv, r["flood"]["scenario"], r["flood"]["count"], random.Random(1))
+            ok, why = N.probe(srv, "probe.bin", content)
+            print(f"replayed flood {r['flood']} on {r['config']}: probe ok={ok} {why}; exit status {srv.exit_status()}")
+            if not ok:
+                print(f"VIOLATION property=C05 replay={rec.get('_path')}")
+                return 1
+            return 0
         if not r.get("culprit_hex"):
             print("no single culprit recorded; batch:", r.get("batch_hex"))
             return 2
